@@ -401,8 +401,9 @@ class Check:
               "violations": len(self.violations), "known_findings_seen": self.known_hits, "notes": self.notes}
         if not self.cov["samples"]:
             self.cov["samples"] = ["(no sample recorded)"]
-        os.makedirs(os.path.join(VERIF, "evidence"), exist_ok=True)
-        evp = os.path.join(VERIF, "evidence", self.pid + ".json")
+        evdir = os.environ.get("VERIF_EVIDENCE_DIR", os.path.join(VERIF, "evidence"))    # seeded-change runs write elsewhere
+        os.makedirs(evdir, exist_ok=True)
+        evp = os.path.join(evdir, self.pid + ".json")
         with open(evp, "w") as f:
             json.dump(ev, f, indent=1, default=str)
         for k, n in sorted(self.known_hits.items()):
